@@ -6,7 +6,13 @@ par clang -c $CF $REPO/igris/util/hexascii.c -o $BUILD/hexascii.o
 par clang++ -std=c++17 -c $CF $REPO/igris/string/hexascii_string.cpp -o $BUILD/hexstr.o
 par clang++ -std=c++17 -c $CF $REPO/igris/util/base64.cpp -o $BUILD/base64.o
 par clang++ -std=c++17 -c $CF $VERIF/harness/c18/c18_codecs.cpp -o $BUILD/h.o
+par clang++ -std=c++17 -c $CF $VERIF/harness/c18/c18_early.cpp -o $BUILD/early.o
+par clang++ -std=c++17 -c $CF $VERIF/harness/c18/c18_late.cpp -o $BUILD/late.o
 par clang++ -std=c++17 -O2 -c -I$MC $MC/mc.cpp -o $BUILD/mc.o
 parwait
-clang++ -fsanitize=address $BUILD/h.o $BUILD/hexascii.o $BUILD/hexstr.o $BUILD/base64.o $BUILD/mc.o -o $BUILD/c18
+par clang++ -fsanitize=address $BUILD/h.o $BUILD/hexascii.o $BUILD/hexstr.o $BUILD/base64.o $BUILD/mc.o -o $BUILD/c18
+# static-initialisation probe: early.o FIRST (its global constructor calls the codecs), the library objects
+# behind it, late.o LAST; spawned by the sub-check static_init_time of c18
+par clang++ -fsanitize=address $BUILD/early.o $BUILD/base64.o $BUILD/hexstr.o $BUILD/hexascii.o $BUILD/late.o -o $BUILD/c18early
+parwait
 echo "codecs $BUILD/c18" > $BUILD/runs.txt
